@@ -8,7 +8,7 @@ from typing import Any
 
 from harness import c11_util as U
 from harness.common import REPO, Ck, coq_list, parse_coq_N_list
-from translate import c11_formats
+from translate import c11_formats, c11_glue
 
 MANIFEST = dict(
     technique='Rocq proof (struct pack/unpack model for all formats, RLE codec, index builders) + generic theorems over '
@@ -33,6 +33,9 @@ MANIFEST = dict(
 
 IMPORTS = ['Coq.Lists.List', 'Coq.Strings.String', 'Coq.NArith.NArith', 'Coq.ZArith.ZArith', 'Coq.Bool.Bool',
            'SV.Bin.LE', 'SV.Bin.Struct', 'SV.Bin.RLE', 'SV.Bin.FindInsert', 'SV.Fmt.BspFormatsSpec', 'SV.Gen.BspFormats_gen']
+IMPORTS_GLUE = ['Coq.Lists.List', 'Coq.Strings.String', 'Coq.NArith.NArith', 'Coq.ZArith.ZArith', 'Coq.Bool.Bool',
+                'SV.Bin.LE', 'SV.Bin.Struct', 'SV.Bin.RLE', 'SV.Fmt.BspFormatsSpec', 'SV.Fmt.BspVisRow', 'SV.Fmt.BspTexStrings',
+                'SV.Fmt.BspRecords', 'SV.Gen.BspFormats_gen', 'SV.Gen.BspGlue_gen']
 PRE = '''Import ListNotations. Open Scope string_scope. Open Scope list_scope.
 Fixpoint nl_eqb (a b : list N) : bool := match a, b with [], [] => true | x :: a', y :: b' => N.eqb x y && nl_eqb a' b' | _, _ => false end.
 Fixpoint natl_eqb (a b : list nat) : bool := match a, b with [], [] => true | x :: a', y :: b' => Nat.eqb x y && natl_eqb a' b' | _, _ => false end.
@@ -209,11 +212,13 @@ def _cs(s: str) -> str:
     return '"' + s + '"'
 
 
-def _eval_cases(ck: Ck, fn: str, ty: str, cases: list[str], name: str) -> list[int] | None:
+def _eval_cases(ck: Ck, fn: str, ty: str, cases: list[str], name: str, imports: list[str] | None = None,
+                pre: str | None = None) -> list[int] | None:
     bad: list[int] = []
     for lo in range(0, len(cases), 400):
         part = cases[lo:lo + 400]
-        vals = ck.coq_eval(IMPORTS, [f'bad_idx (fun c : {ty} => {fn} c) 0 {coq_list(part)}'], name=name, preamble=PRE)
+        vals = ck.coq_eval(imports or IMPORTS, [f'bad_idx (fun c : {ty} => {fn} c) 0 {coq_list(part)}'], name=name,
+                           preamble=PRE if pre is None else pre)
         if vals is None:
             return None
         bad += [lo + i for i in parse_coq_N_list(vals[0])]
@@ -283,6 +288,114 @@ def corr_rle(ck: Ck) -> None:
     if be or bd:
         ck.tie_broken.append('correspondence RLE model vs bsp.runlength_encode/decode')
         ck.extra['rle_disagreement'] = {'enc': [enc[i][:400] for i in be[:3]], 'dec': [dec[i][:400] for i in bd[:3]]}
+
+
+# ------------------------------------------------------------------------------------------------ row size + texture table
+PRE_GLUE = '''Import ListNotations. Open Scope list_scope.
+Fixpoint bad_idx {A} (f : A -> bool) (n : N) (l : list A) : list N := match l with [] => [] | x :: r => (if f x then [] else [n]) ++ bad_idx f (n + 1) r end.
+Fixpoint natl_eqb (a b : list nat) : bool := match a, b with [], [] => true | x :: a', y :: b' => Nat.eqb x y && natl_eqb a' b' | _, _ => false end.
+Definition onl_eqb (a b : option (list N)) : bool := match a, b with Some x, Some y => nl_eqb x y | None, None => true | _, _ => false end.
+Fixpoint onls_eqb (a b : list (option (list N))) : bool := match a, b with [], [] => true | x :: a', y :: b' => onl_eqb x y && onls_eqb a' b' | _, _ => false end.
+Definition chk_row (c : Z * Z) : bool := Z.eqb (reval vis_row_reader (fst c)) (snd c).
+Definition chk_tex (c : list (list N) * (list N * list nat) * list (option (list N))) : bool :=
+  let '(names, (d, o), rd) := c in let '(ss, sa, _, win) := tex_cfg in
+  let '(d', o') := tex_write ss sa names in nl_eqb d d' && natl_eqb o o' && onls_eqb (map (tex_read win d') o') rd.
+'''
+
+
+def corr_rowsize(ck: Ck) -> None:
+    """The translated row-size expression against runlength_decode itself: decoding a long run of non-zero bytes with
+    max_clusters = n returns exactly ret_bytes bytes.  Directly also: two rows back to back must be read back."""
+    from srctools.bsp import runlength_decode, runlength_encode
+    hi = ck.budget(200, 1200)
+    probe = bytes([1]) * (hi // 8 + 40)
+    cases = []
+    for n in range(0, hi):
+        got = len(runlength_decode(probe, 0, n))
+        cases.append(f'(({n})%Z, ({got})%Z)')
+        ck.count('row_size_cases')
+        # the property itself on the implementation: a row of ceil(n/8) bytes followed by another row
+        w = (n + 7) // 8
+        row = bytes((37 * n + 11 * i) % 251 + 1 if (i + n) % 3 else 0 for i in range(w))
+        nxt = bytes((91 * n + 7 * i) % 255 + 1 for i in range(max(w, 1)))
+        data = bytes(runlength_encode(row)) + bytes(runlength_encode(nxt))
+        back = bytes(runlength_decode(data, 0, n))
+        if back != row:
+            ck.violation('visibility:row-size:' + ('multiple-of-8' if n % 8 == 0 else f'count-mod-8={n % 8}'),
+                         f'a visibility row for {n} clusters ({w} bytes) followed by the next row is read back as {len(back)} bytes',
+                         {'clusters': n, 'row': list(row), 'next_row': list(nxt), 'read_back': list(back),
+                          'how': 'runlength_decode(runlength_encode(row) + runlength_encode(next_row), 0, clusters)'})
+    bad = _eval_cases(ck, 'chk_row', 'Z * Z', cases, 'rowsize', IMPORTS_GLUE, PRE_GLUE)
+    if bad is None:
+        ck.obligation('correspondence:vis_row_size', False, 'model could not be evaluated')
+        ck.tie_broken.append('correspondence row size: model evaluation failed')
+        return
+    ck.obligation('correspondence:vis_row_size', not bad,
+                  f'translated expression `{ck.extra.get("translated", {}).get("BspGlue_gen", {}).get("vis_row_reader")}` evaluated in Coq vs '
+                  f'len(runlength_decode(non-zero bytes, 0, n)) for every n < {hi}: {len(bad)} disagreements')
+    if bad:
+        ck.tie_broken.append('correspondence translated row-size expression vs runlength_decode')
+
+
+def corr_tex(ck: Ck, base: str) -> None:
+    """Model of the texture string table (configured with what the translator read) vs _lmp_write_textures/_lmp_read_textures,
+    exhaustively for all lists of at most 3 names of at most 2 letters over {A, B} (399 lists) plus random longer ones;
+    directly: every name must be read back."""
+    import itertools
+
+    import srctools.bsp as B
+    b = B.BSP(base)
+    alpha = [b'', b'A', b'B', b'AA', b'AB', b'BA', b'BB']
+    lists: list[list[bytes]] = []
+    for k in (1, 2, 3):
+        lists += [list(t) for t in itertools.product(alpha, repeat=k)]
+    rng = ck.rng
+    for _ in range(ck.budget(60, 1500)):
+        pool = [bytes(rng.choice(b'AB/_\xe9') for _ in range(rng.choice([1, 2, 3, 5, 9]))) for _ in range(4)]
+        names = []
+        for _ in range(rng.randint(2, 7)):
+            x = rng.choice(pool)
+            k = rng.random()
+            names.append(x if k < 0.4 else x[rng.randrange(len(x)):] if k < 0.6 else x[:rng.randrange(len(x) + 1)] if k < 0.8
+                         else x + rng.choice(pool))
+        lists.append(names)
+    cases = []
+    for names in lists:
+        strs = [n.decode('ascii', 'surrogateescape') for n in names]
+        data = b._lmp_write_textures(strs)
+        table = b.lumps[B.BSP_LUMPS.TEXDATA_STRING_TABLE].data
+        offs = list(struct.unpack(f'<{len(table) // 4}i', table))
+        try:
+            back: list[str] | None = list(b._lmp_read_textures(data))
+        except ValueError:
+            back = None
+        ck.count('texture_table_cases')
+        ck.hist('texture_table_shared', 'shared' if len(set(offs)) < len(offs) or len(data) < sum(len(n) + 1 for n in names) else 'all-new')
+        if len(data) < sum(len(n) + 1 for n in set(names)):
+            ck.seen(('tex', tuple(names)))
+        if back != strs:
+            wrong = [i for i, (x, y) in enumerate(zip(strs, back or []))if x != y]
+            cls = 'unreadable' if back is None else 'name-inside-earlier-name'
+            ck.violation('textures:string-table:' + cls,
+                         f'texture names {strs!r} are read back as {back!r} (offsets {offs}, data {data!r})',
+                         {'names': strs, 'read_back': back, 'offsets': offs, 'first_wrong': wrong[:1],
+                          'how': 'bsp._lmp_write_textures(names); bsp._lmp_read_textures(result)'})
+        rd = '[' + ';'.join('None' if back is None else f'Some {nlist(x.encode("ascii", "surrogateescape"))}' for x in (back or strs)) + ']'
+        if back is not None:
+            cases.append(f'({coq_list(nlist(n) for n in names)}, ({nlist(data)}, {natlist(offs)}), {rd})')
+    ck.sample({'texture_table_case(names, (data block, offsets), names read back)': cases[30][:300]})
+    bad = _eval_cases(ck, 'chk_tex', 'list (list N) * (list N * list nat) * list (option (list N))', cases, 'tex', IMPORTS_GLUE, PRE_GLUE)
+    if bad is None:
+        ck.obligation('correspondence:texdata_strings', False, 'model could not be evaluated')
+        ck.tie_broken.append('correspondence texture string table: model evaluation failed')
+        return
+    ck.obligation('correspondence:texdata_strings', not bad,
+                  f'{len(cases)} name lists (all 399 lists of <= 3 names of <= 2 letters over {{A,B}} + random lists with prefixes, tails, '
+                  f'concatenations), Fmt/BspTexStrings.v configured from the source vs _lmp_write_textures/_lmp_read_textures '
+                  f'(data block, offsets, names read back): {len(bad)} disagreements')
+    if bad:
+        ck.tie_broken.append('correspondence texture string table model vs bsp.py')
+        ck.extra['tex_disagreement'] = [cases[i][:400] for i in bad[:3]]
 
 
 # ------------------------------------------------------------------------------------------------ find_or_* correspondence
@@ -559,6 +672,20 @@ def high_precision_delay_probe(ck: Ck, base: str, wd: str) -> None:
 
 
 # ------------------------------------------------------------------------------------------------ main
+def glue_obligations(glue: dict) -> dict[str, str]:
+    obs = {
+        'vis_row_size_reader_is_ceil8': 'rowsize_ok vis_row_reader',
+        'vis_row_size_writer_is_ceil8': 'rowsize_ok vis_row_writer',
+        'vis_reader_passes_cluster_count': 'vis_reader_passes_cluster_count',
+        'vis_writer_checks_row_length': 'vis_writer_checks_row_length',
+        'texdata_search_includes_terminator': 'texcfg_search_terminated tex_cfg',
+        'texdata_append_is_terminated': 'texcfg_append_terminated tex_cfg',
+        'texdata_guard_fits_reader_window': 'texcfg_guard_fits_window tex_cfg',
+        'texdata_codec_agrees': 'tex_codec_same',
+    }
+    return obs
+
+
 def run(ck: Ck) -> None:
     ck.rule = ('worlds: a consistent object graph for all 20 views generated from (seed, layout in 7, static-prop version in 13, feature '
                'subset of 15, size), distinct by seed/layout/version, non-trivial = at least 3 features switched on; struct: (format, '
@@ -583,7 +710,9 @@ def run(ck: Ck) -> None:
         t0 = time.time()
     ok_t = ck.translate('BspFormats_gen', c11_formats.translate)
     side = ck.extra.get('translated', {}).get('BspFormats_gen', {})
-    built = ok_t and ck.build(['Props/C11.vo', 'Gen/BspFormats_gen.vo'])
+    ok_g = ck.translate('BspGlue_gen', c11_glue.translate)
+    glue = ck.extra.get('translated', {}).get('BspGlue_gen', {})
+    built = ok_t and ok_g and ck.build(['Props/C11.vo', 'Gen/BspFormats_gen.vo', 'Gen/BspGlue_gen.vo'])
     if built:
         ck.theorems('Props/C11.v')
         obs: dict[str, str] = {}
@@ -611,8 +740,16 @@ def run(ck: Ck) -> None:
         lap('translate+build+assumptions')
         ck.instance_obligations(IMPORTS, obs)
         lap('instance_obligations')
+        gobs = glue_obligations(glue)
+        res = ck.instance_obligations(IMPORTS_GLUE, gobs, name='glue')
+        if not res.get('vis_row_size_reader_is_ceil8', True) or not res.get('vis_row_size_writer_is_ceil8', True):
+            w = ck.coq_eval(IMPORTS_GLUE, ['rowsize_witnesses vis_row_reader', 'rowsize_witnesses vis_row_writer'], name='row_wit')
+            ck.extra['vis_row_size_wrong_for_cluster_counts(reader, writer; below 64)'] = w
+        lap('glue_obligations')
         corr_struct(ck, side)
         lap('corr_struct')
+        corr_rowsize(ck)
+        lap('corr_rowsize')
         corr_rle(ck)
         lap('corr_rle')
         corr_find(ck)
@@ -620,6 +757,9 @@ def run(ck: Ck) -> None:
     base = str(ck.scratch / 'base.bsp')
     U.make_base(str(REPO / 'tests' / 'test_vec' / 'rot_main.bsp'), base)
     wd = str(ck.scratch)
+    if built:
+        corr_tex(ck, base)
+        lap('corr_tex')
     reject_probes(ck, base, wd)
     high_precision_delay_probe(ck, base, wd)
     lap('reject_probes')
@@ -631,6 +771,11 @@ def run(ck: Ck) -> None:
         ck.explain('instance:detail_kind_dispatch')
     if any(k.startswith('visibility') or k.startswith('no-reject:visibility') for k in keys):
         ck.explain('correspondence:rle')
+        ck.explain('correspondence:vis_row_size')
+        ck.explain('instance:vis_')
+    if any(k.startswith('textures') or k.startswith('texinfo') for k in keys):
+        ck.explain('instance:texdata_')
+        ck.explain('correspondence:texdata_strings')
     if any(k.startswith('find_or_extend') or 'tail_overlap' in k or 'shared_objects' in k for k in keys):
         ck.explain('instance:find_or_extend_checks_bounds')
         ck.explain('correspondence:find')
